@@ -17,6 +17,13 @@
 //     runs the row once for EVERY member of the class (2^31, 2^32, 2^63-1, 2^63, 2^64-1; for times
 //     the int64 seconds around the range of time.Time and the negative ones) on Verify, on the
 //     policy decoded from its wire form, and through ValidateV2Transaction at the model's height.
+//     The family "size" (PolicySizes.tla, sizes.go) puts the magnitudes the property quantifies over
+//     at the limits the codec and the evaluator document: unlock conditions listing 254..257,
+//     1023..1025 and 2049 keys and requiring 0, 1, n-1, n, n+1 and every smaller limit value of
+//     signatures, thresholds of 254..256 children, trees of 1023..2049 sub-policies whose leaves all
+//     ask for a witness, with exact and flawed witness lists of up to 2050 entries. TLC builds each
+//     policy at its real size and computes the verdict; the harness runs Verify, the codec,
+//     Address and ValidateV2Transaction on it.
 //  3. Direction B: seeded random trees up to depth 6 and the complexity limits (1024/1025
 //     sub-policies, 255/256 children, nesting depth 32/33) are run on the real code under a
 //     deadline; the recorded verdicts are validated by TLC against Meaning (PolicyTrace.tla).
@@ -346,7 +353,7 @@ func main() {
 		return
 	}
 	r := rand.New(rand.NewSource(c.Seed))
-	c.Rule("Direction A: TLC enumerates policy trees (all leaf kinds at lock values H-1,H,H+1 / T-1,T,T+1; 340-680 unlock-condition shapes over ed25519/entropy/other keys; thresholds n=0..3 of breadth<=3 over leaves, opaque and uc children; depth 2 of breadth<=3; depth 3-4 of breadth<=2), contexts (base, height-1, height+1, time-1, time+1 for policies with such a lock) and all witness assignments (signature sequences over {key0,key1,garbage} up to length 3 x preimage sequences up to length 2-3); quick checks the seed-selected half of the non-leaf policies, thorough all of them. In addition the numeric family (always complete): above(h)/uc timelock in {0,H-1,H,H+1,BIG}, after(t) in {NEG,0,T-1,T,T+1,BIG}, uc signatures required in {0,1,len,len+1,255,256,BIG} over key lists of length 0..3 with duplicates, thresh n in {0,1,len,len+1,255}, where BIG/NEG are value classes whose verdict TLC computes once and whose members {2^31,2^32,2^63-1,2^63,2^64-1} (times: 2^31,2^32,2^63-1-62135596800,2^63-62135596800,2^63-1 and -2^63,-2^63+1,-62135596801,-2^32,-1) are each instantiated on the real code, in environment 0 (model numbers are the real ones) and one other, and every such row also through ValidateV2Transaction. One evaluation = one execution of the real Verify (or ValidateV2Transaction, or the codec for limit lines) compared with TLC's verdict. A case (policy, context, witnesses) is distinct by construction; it counts as non-trivial if it is accepted or lies within one insertion/deletion/substitution of an accepted assignment of the same policy and context (a near miss); a policy/context that nothing satisfies counts once. Direction B lines count as non-trivial if distinct and containing a threshold or unlock conditions. traces_validated = TLC rows (policy, context) replayed + trace files validated.")
+	c.Rule("Direction A: TLC enumerates policy trees (all leaf kinds at lock values H-1,H,H+1 / T-1,T,T+1; 340-680 unlock-condition shapes over ed25519/entropy/other keys; thresholds n=0..3 of breadth<=3 over leaves, opaque and uc children; depth 2 of breadth<=3; depth 3-4 of breadth<=2), contexts (base, height-1, height+1, time-1, time+1 for policies with such a lock) and all witness assignments (signature sequences over {key0,key1,garbage} up to length 3 x preimage sequences up to length 2-3); quick checks the seed-selected half of the non-leaf policies, thorough all of them. In addition the numeric family (always complete): above(h)/uc timelock in {0,H-1,H,H+1,BIG}, after(t) in {NEG,0,T-1,T,T+1,BIG}, uc signatures required in {0,1,len,len+1,255,256,BIG} over key lists of length 0..3 with duplicates, thresh n in {0,1,len,len+1,255}, where BIG/NEG are value classes whose verdict TLC computes once and whose members {2^31,2^32,2^63-1,2^63,2^64-1} (times: 2^31,2^32,2^63-1-62135596800,2^63-62135596800,2^63-1 and -2^63,-2^63+1,-62135596801,-2^32,-1) are each instantiated on the real code, in environment 0 (model numbers are the real ones) and one other, and every such row also through ValidateV2Transaction. One evaluation = one execution of the real Verify (or ValidateV2Transaction, or the codec for limit lines) compared with TLC's verdict. A case (policy, context, witnesses) is distinct by construction; it counts as non-trivial if it is accepted or lies within one insertion/deletion/substitution of an accepted assignment of the same policy and context (a near miss); a policy/context that nothing satisfies counts once. The size family (always complete for the plain key lists and the tree totals): number of listed keys n in {254,255,256,257,1023,1024,1025,2049} x signatures required in {0,1,n-1,n,n+1} and every member of that set below n x key kinds (signing keys first / last, unknown algorithm, mixed, an entropy key at / after the last consulted key) x witness lists (exact, one short, one long, first / last wrong, none, stray preimage); single thresholds of 254..256 children with 0,1,w-1,w revealed; trees of 1023,1024,1025,1026,2049 sub-policies with pk / hash / alternating leaves; every case is distinct by construction and at a limit, and counts as one evaluation on Verify+codec and one on ValidateV2Transaction where it is spent. Direction B lines count as non-trivial if distinct and containing a threshold or unlock conditions. traces_validated = TLC rows (policy, context) replayed + trace files validated.")
 	c.Assume("ed25519 and SHA-256 are what they claim: a signature by key k over hash x verifies only under k and x; garbage signatures/preimages (random, bit-flipped, other hash, stranger's key) verify under nothing")
 	c.Assume("model heights/times are mapped to real ones monotonically (several bases incl. 2^32, 2^63, 2^64-1, negative Unix time, nanosecond steps); the comparison semantics are translation invariant")
 	c.Assume("unlock keys of algorithm ed25519 carry 32-byte keys (other lengths are outside the model)")
@@ -427,6 +434,14 @@ func main() {
 		directionB(c, envs, rand.New(rand.NewSource(c.Seed*31+5)), c.Pick(3000, 40000), 4)
 		decoderBomb(c)
 		took("direction_b", t0)
+	}()
+	// ---- the size family: policies and witness lists at the magnitudes of the documented limits ----
+	wg.Add(1)
+	go func() {
+		defer wg.Done()
+		t0 := time.Now()
+		sizeFamily(c, envs, c.Seed)
+		took("size_family", t0)
 	}()
 	wg.Wait()
 	if len(errs) > 0 {
